@@ -17,10 +17,11 @@
 package system
 
 import (
-	"bytes"
 	"fmt"
 	"os"
 	"path/filepath"
+	"strconv"
+	"strings"
 )
 
 // setIPv6Autoconf enables or disables IPv6 autoconfiguration for the
@@ -48,7 +49,14 @@ func sysctlBool(file string) (bool, error) {
 		return false, err
 	}
 
-	return bytes.Equal(out, []byte("1\n")), nil
+	// The kernel accepts any integer for these keys and treats every non-zero
+	// value as enabled.
+	v, err := strconv.Atoi(strings.TrimSpace(string(out)))
+	if err != nil {
+		return false, fmt.Errorf("failed to parse %q: %w", file, err)
+	}
+
+	return v != 0, nil
 }
 
 // sysctl builds an IPv6 sysctl path for an interface and given key.
